@@ -52,7 +52,8 @@ Judge(t) ==
                THEN {<<"C10", "completed-although-not-registered-by-both-users">>} ELSE {}
         b11 == {<<"C10", "connection-registered-at-a-hub-that-was-shut-down", h>> : h \in {h \in {"A", "B"} : t.shutDown[h] /\ t.hubs[h].registered}}
         b12 == IF (t.shutDown["A"] \/ t.shutDown["B"]) /\ t.openStreams > 0 THEN {<<"C10", "stream-open-although-a-hub-was-shut-down", t.openStreams>>} ELSE {}
-    IN  b1 \cup b2 \cup b3 \cup b4 \cup b5 \cup b6 \cup b7 \cup b8 \cup b9 \cup b10 \cup b11 \cup b12
+        \* b6 and b8 hold at any time; everything else is a statement about a state at rest
+    IN  b6 \cup b8 \cup (IF t.settled THEN b1 \cup b2 \cup b3 \cup b4 \cup b5 \cup b7 \cup b9 \cup b10 \cup b11 \cup b12 ELSE {})
 Init == l = 0
 Next == /\ l < Len(Trace)
         /\ l' = l + 1
